@@ -545,6 +545,13 @@ class ScipyOptimizeDriver(Driver):
 
         self._scipy_optimize_result = result
 
+        # Leave the model at the design that is reported (some optimizers, e.g. COBYLA, return
+        # their best point rather than the one evaluated last).
+        if getattr(result, 'x', None) is not None:
+            self._sync_model(np.asarray(result.x, dtype=float))
+            if self._exc_info is not None:
+                self._reraise()
+
         if hasattr(result, 'success'):
             self.fail = not result.success
             if self.fail:
